@@ -287,6 +287,7 @@ func runC08(c *core.Ctx) {
 
 	c08Retry(c, layouts, sessions)
 	c08HandBuilt(c, layouts, sessions)
+	c08ShortReads(c, layouts, sessions)
 	c08Overlap(c, layouts, sessions)
 	c08SPSide(c)
 }
@@ -363,6 +364,72 @@ func c08Retry(c *core.Ctx, layouts []c08Layout, sessions []c06Session) {
 		}
 	}
 }
+
+// shortReader hands out at most max octets per Read call, without an error - as io.Reader allows (a block-wise DRBG, an HSM wrapper).
+type shortReader struct {
+	inner io.Reader
+	max   int
+}
+
+func (c shortReader) Read(p []byte) (int, error) {
+	if len(p) > c.max {
+		p = p[:c.max]
+	}
+	return c.inner.Read(p)
+}
+
+// c08ShortReads: the configured random source answers each Read with at most n octets. Keys and IVs are still whole and fresh.
+func c08ShortReads(c *core.Ctx, layouts []c08Layout, sessions []c06Session) {
+	c.Group("idp-side-random-source-with-short-reads")
+	for _, l := range layouts {
+		if !l.advertises || l.mustFail || l.errorOK {
+			continue
+		}
+		for _, max := range c08ChunkSizes {
+			for _, kind := range []string{"sp-initiated", "idp-initiated"} {
+				l, max, kind := l, max, kind
+				key := fmt.Sprintf("short-reads/%s/at-most-%d-octets-per-read/%s", l.name, max, kind)
+				c.Case(key, func(t *core.T) {
+					t.NonTrivial()
+					md := l.metadata("")
+					sess := sessions[0].s
+					idp := harness.NewIDP("idp1", harness.SPRegistry{md.EntityID: md}, &sess)
+					rec := harness.NewCtr("c08" + key)
+					xmlenc.RandReader = shortReader{rec, max}
+					defer func() { xmlenc.RandReader = rec }()
+					var seen [][][]byte
+					for round := 0; round < 3; round++ {
+						body, p := c08Serve(idp, kind, round)
+						t.Impl(1)
+						if p != "" {
+							t.Fail("C08/idp/panic@"+p[strings.LastIndex(p, "@")+1:], "IdP panicked: %s", p)
+							return
+						}
+						o, ok := c08CheckEmitted(t, l, &sess, body, nil, key)
+						if !ok {
+							return
+						}
+						if o != nil {
+							for _, prev := range seen {
+								if bytes.Equal(prev[0], o[0]) {
+									t.Fail("C08/idp/content-key-reused", "[%s] the content-encryption key of response %d equals that of an earlier response", key, round+1)
+								}
+								if bytes.Equal(prev[1], o[1]) {
+									t.Fail("C08/idp/iv-reused", "[%s] the IV of response %d equals that of an earlier response", key, round+1)
+								}
+							}
+							seen = append(seen, o)
+						}
+					}
+					t.Compared()
+				})
+			}
+		}
+	}
+}
+
+// c08ChunkSizes: the per-Read limits of the short-read group.
+var c08ChunkSizes = []int{1, 7, 8, 15, 16, 17, 24, 31, 32}
 
 // c08HandBuilt: an IdpAuthnRequest the application put together itself (an own launch flow, an own AssertionMaker) from the exported
 // fields - the SP's registered metadata, the endpoint, the assertion - with one of the fields the library's own flows always fill left
@@ -721,6 +788,11 @@ func c08CheckEmitted(t *core.T, l c08Layout, sess *saml.Session, body []byte, dr
 	}
 	if bytes.Equal(iv, make([]byte, len(iv))) {
 		fail("degenerate-iv", "the IV is all zero")
+	} else if bytes.Equal(iv[8:], make([]byte, 8)) {
+		fail("degenerate-iv", "the last 8 octets of the IV are zero: it was not fully drawn")
+	}
+	if len(cek) >= 16 && !bytes.Equal(cek, make([]byte, len(cek))) && bytes.Equal(cek[len(cek)-8:], make([]byte, 8)) {
+		fail("degenerate-content-key", "the last 8 octets of the content-encryption key are zero: it was not fully drawn")
 	}
 	if drawn != nil {
 		// provenance from xmlenc.RandReader is recorded as an outcome only: the statement asks for fresh keys and IVs,
